@@ -35,6 +35,7 @@ namespace verif
     std::vector<entry> log;
     size_t reported = 0;
     std::map<std::string, int> script;         // "port.event" -> reply value (index for enums, 0/1 for bool)
+    std::map<std::string, std::string> react;  // "port.inevent" -> "port.outevent" the component raises while handling it
     int out_counter = 0;
     std::thread::id disp;
     bool disp_known = false;
